@@ -32,6 +32,8 @@ class Gen:
         self.draw = draw
         self.pp = pp
         self.lits = True
+        self.safe_else = False
+        self.junk_brackets = True
         self.max_depth = max_depth
         self.nvars = 0
         self.labels = 0
@@ -125,22 +127,26 @@ class Gen:
             braces = self.coin(0.6)
         if braces:
             return [P('{')] + self.block_items(vars_, depth + 1, in_loop, in_switch) + [('stmt', depth, 'close'), P('}')]
-        return [('stmt', depth + 1, 'single')] + self.stmt(vars_, depth + 1, in_loop, in_switch, allow_decl=False)
+        return [('stmt', depth + 1, 'single')] + self.stmt(vars_, depth + 1, in_loop, in_switch, allow_decl=False, no_block=True)
 
-    def stmt(self, vars_, depth, in_loop, in_switch, allow_decl=True):
+    def stmt(self, vars_, depth, in_loop, in_switch, allow_decl=True, no_block=False):
         if depth >= self.max_depth:
             return self.simple_stmt(vars_)
         k = self.draw(st.integers(0, 15))
         if k <= 5:
             return self.simple_stmt(vars_)
         if k == 6:
-            t = [K('if'), P('(')] + self.expr(vars_) + [P(')'), ('slot', '')] + self.body(vars_, depth, in_loop, in_switch)
             m = self.draw(st.integers(0, 2))
+            # with safe_else an `if` that is followed by `else` gets a braced body, so that no dangling-else shape arises and the
+            # depth annotations stay exact (needed by C18); without it the dangling shapes are generated on purpose (C01, C04)
+            t = [K('if'), P('(')] + self.expr(vars_) + [P(')'), ('slot', '')] + \
+                self.body(vars_, depth, in_loop, in_switch, braces=True if (self.safe_else and m) else None)
             # avoid dangling-else ambiguity only by construction of unbraced nested ifs: allowed, it is legal C
             for _ in range(m if m < 2 else 1):
-                t += [('stmt', depth, 'else'), K('else'), K('if'), P('(')] + self.expr(vars_) + [P(')')] + self.body(vars_, depth, in_loop, in_switch)
+                t += [('stmt', depth, 'else'), K('else'), K('if'), P('(')] + self.expr(vars_) + [P(')')] + \
+                    self.body(vars_, depth, in_loop, in_switch, braces=True if self.safe_else else None)
             if m:
-                t += [('stmt', depth, 'else'), K('else'), ('slot', '')] + self.body(vars_, depth, in_loop, in_switch)
+                t += [('stmt', depth, 'else'), K('else'), ('slot', '')] + self.body(vars_, depth, in_loop, in_switch, braces=True if self.safe_else else None)
             return t
         if k == 7:
             if self.coin(0.3):      # an infinite loop header, with a trivia slot between the constant and ')'
@@ -160,12 +166,12 @@ class Gen:
             for c in range(self.draw(st.integers(1, 3))):
                 t += [('stmt', depth, 'case'), K('case'), ('num', str(c)), P(':')]
                 for _ in range(self.draw(st.integers(0, 2))):
-                    t += [('stmt', depth + 1, 'stmt')] + self.stmt(vars_, depth + 1, in_loop, True, allow_decl=False)
+                    t += [('stmt', depth + 1, 'stmt')] + self.stmt(vars_, depth + 1, in_loop, True, allow_decl=False, no_block=self.safe_else)
                 if self.coin(0.8):
                     t += [('stmt', depth + 1, 'stmt'), K('break'), P(';')]
             t += [('stmt', depth, 'case'), K('default'), P(':'), ('stmt', depth + 1, 'stmt'), K('break'), P(';')]
             return t + [('stmt', depth, 'close'), P('}')]
-        if k == 11:
+        if k == 11 and not no_block:       # (a bare block as an unbraced body would simply be a braced body)
             return [P('{')] + self.block_items(vars_, depth + 1, in_loop, in_switch) + [('stmt', depth, 'close'), P('}')]
         if k == 12 and in_loop:
             return [K(self.choice(['break', 'continue'])), P(';')]
@@ -191,6 +197,8 @@ class Gen:
         inner = [('stmt', depth, 'stmt')] + self.simple_stmt(vars_)
         other = [('stmt', depth, 'stmt')] + self.simple_stmt(vars_)
         junk = [('stmt', depth, 'stmt'), I('this'), I('is'), I('not'), P('}'), I('C'), P(')'), ('num', '1x2'), P('->'), P(';')]
+        if not self.junk_brackets:
+            junk = [t for t in junk if t not in (P('}'), P(')'))]
         if k == 0:
             return self.directive([P('#'), K('if'), ('num', '1')]) + inner + self.directive([P('#'), I('endif')])
         if k == 1:
@@ -266,9 +274,11 @@ PRELUDE = [
 
 
 @st.composite
-def c_program(draw, max_depth=4, pp=True, max_funcs=3, lits=True):
+def c_program(draw, max_depth=4, pp=True, max_funcs=3, lits=True, safe_else=False, junk_brackets=True):
     g = Gen(draw, draw(st.integers(1, max_depth)), pp)
     g.lits = lits
+    g.safe_else = safe_else
+    g.junk_brackets = junk_brackets
     toks = []
     if pp:
         for m in MACROS[:5]:
